@@ -57,7 +57,7 @@ func (g *G) Weighted(ws []int, label string) int {
 // siblings that sort between `d` and `d/` ('-' 0x2d, '.' 0x2e < '/' 0x2f < '0');
 // names that are prefixes / substrings of each other; regexp metacharacters.
 var (
-	bases    = []string{"a", "b", "d", "ad", "lib", "test", "x", "é", "Z", "build"}
+	bases    = []string{"a", "b", "d", "ad", "lib", "test", "x", "é", "Z", "build", "r\xe9sum\xe9"}
 	suffixes = []string{"", "", "", ".go", ".c", "-old", "-data", "0", "1", " b", "(1)", "(", "+", "_", ".", "[", "ü", " ", "-", "+x", ".txt", ".log", ".tmp"}
 	// IgnoreDirs / IgnoreExts are what a generated .goitignore may contain. Extensions are never
 	// used in directory names, so "ignored" is unambiguous in the generated domain.
@@ -233,10 +233,20 @@ func (g *G) NewPath() string {
 		sort.Strings(stems)
 		if len(stems) > 0 {
 			stem := g.Pick(stems, "stem")
-			p := stem + g.Pick([]string{"-x", ".c", " b", "+", "(1)", "0", "_", "s", ".", "-", "x"}, "sibSuffix")
+			p := stem + g.Pick([]string{"-x", ".c", " b", "+", "(1)", "0", "_", "s", ".", "-", "x", "-old", "2"}, "sibSuffix")
+			if g.Chance(40, "siblingIsDirectory") {
+				p = p + "/" + g.Component() // a sibling DIRECTORY whose name extends the stem: lib/ next to lib-old/
+			}
 			if !strings.HasPrefix(p, ".goit") && !g.E.H.PathsEver[p] && g.pathUsable(p) && !hasIgnorableExtInDir(p) {
 				return p
 			}
+		}
+	}
+	if g.Chance(3, "longPath") {
+		// a path longer than 255 bytes (its length no longer fits into one byte)
+		p := strings.Repeat("m", g.Int(100, 140, "l1")) + "/" + strings.Repeat("n", g.Int(100, 140, "l2")) + "/" + g.Component()
+		if !g.E.H.PathsEver[p] && g.pathUsable(p) {
+			return p
 		}
 	}
 	for try := 0; try < 30; try++ {
@@ -376,7 +386,7 @@ func (g *G) Email() string {
 }
 
 // BranchName draws from a small pool whose members are prefixes of each other.
-var branchPool = []string{"main", "a", "b", "a.b", "ab", "a-b", "dev", "b_1", "B", "main2", "ma", "z.9", ".wip", "b.", ".a", "_", "0", "a.tmp", "main.tmp", "b.lock", "a~"}
+var branchPool = []string{"main", "a", "b", "a.b", "ab", "a-b", "dev", "b_1", "B", "main2", "ma", "z.9", ".wip", "b.", ".a", "_", "0", "a.tmp", "main.tmp", "b.lock", "a~", "w", "w ", " w"}
 
 func (g *G) BranchName() string { return g.Pick(branchPool, "branch") }
 
